@@ -359,6 +359,7 @@ package derive
 //@ assigns nothing
 //@ mutates-arg: x
 //@ ensures perm(final(x), x) && len(final(x)) == len(x) && ((final(x) == nil) <==> (x == nil))
+//@ ensures distinct(x) ==> distinct(final(x))
 //@ ensures forall a int, b int :: 0 <= a && a < b && b < len(x) ==> !strlt(final(x)[b], final(x)[a])
 //@ ensures (forall k int :: 0 <= k && k < len(x) ==> exists l int :: 0 <= l && l < len(x) && final(x)[l] == x[k]) && (forall k int :: 0 <= k && k < len(x) ==> exists l int :: 0 <= l && l < len(x) && final(x)[k] == x[l])
 
@@ -389,12 +390,14 @@ package derive
 //@ assigns nothing
 //@ mutates-arg: x
 //@ ensures perm(final(x), x) && len(final(x)) == len(x) && ((final(x) == nil) <==> (x == nil))
+//@ ensures distinct(x) ==> distinct(final(x))
 //@ ensures forall a int, b int :: 0 <= a && a < b && b < len(x) ==> final(x)[a] <= final(x)[b]
 //@ ensures (forall k int :: 0 <= k && k < len(x) ==> exists l int :: 0 <= l && l < len(x) && final(x)[l] == x[k]) && (forall k int :: 0 <= k && k < len(x) ==> exists l int :: 0 <= l && l < len(x) && final(x)[k] == x[l])
 //@ extern func sort.Float64s(x []float64) ()
 //@ assigns nothing
 //@ mutates-arg: x
 //@ ensures perm(final(x), x) && len(final(x)) == len(x) && ((final(x) == nil) <==> (x == nil))
+//@ ensures distinct(x) ==> distinct(final(x))
 //@ ensures forall a int, b int :: 0 <= a && a < b && b < len(x) ==> !fltlt(final(x)[b], final(x)[a])
 //@ ensures (forall k int :: 0 <= k && k < len(x) ==> exists l int :: 0 <= l && l < len(x) && final(x)[l] == x[k]) && (forall k int :: 0 <= k && k < len(x) ==> exists l int :: 0 <= l && l < len(x) && final(x)[k] == x[l])
 
@@ -407,6 +410,10 @@ package derive
 
 //@ func IsError(t types.Type) (r bool)
 //@ abstract: pred
+
+//@ extern func strings.Compare(a string, b string) (r int)
+//@ pure
+//@ ensures r == ite(strlt(a, b), 0 - 1, ite(a == b, 0, 1))
 
 //@ extern func strings.Join(elems []string, sep string) (r string)
 //@ pure
